@@ -366,6 +366,9 @@ def c16() -> int:
     gfsx(c, fsx, ("hivemc.w_imm", "make_res", {"variant": "core", "throttle": 0.24, "mechs": ("thirsty", "thirsty", "quiet"), "pairs": False, "name": "W-res/imm/throttled"}),
         ("hivemc.bundles", "c16", {}), K=2, H=5 if quick else 7, needs=["c16:carried_controller_steps"])
     gfsx(c, fsx, ("hivemc.w_imm", "make_auto", {}), ("hivemc.bundles", "c16", {}), K=2, H=10 if quick else 16, needs=["c16:carried_controller_steps"])
+    # requests in two different search cells: the on-shift human driver's "go where the demand is" answer differs between states that
+    # carry the same clock value
+    gfsx(c, fsx, ("hivemc.w_imm", "make_auto", {"requests": ["r0", "r4"], "name": "W-auto/two-cells"}), ("hivemc.bundles", "c16", {}), K=2, H=8 if quick else 12)
     # a low human-driven vehicle the ChargingFleetManager looks at every step, dispatched by the controller, whose shift ends under way
     gfsx(c, fsx, ("hivemc.w_imm", "make_auto", {"controller": True, "home_plug": False, "h0_energy": 0.6}), ("hivemc.bundles", "c16", {}), K=2, H=6 if quick else 9)
     # the second station-search strategy (its ranking replays the sessions of the plugged and queued vehicles) beside the controller:
@@ -422,6 +425,8 @@ def c19() -> int:
         ("hivemc.bundles", "c19", {}), K=2 if quick else 3, H=7 if quick else 9, needs=needs)
     fsx(c, ("hivemc.w_log", "make_req", {}), ("hivemc.bundles", "c19", {}), K=3 if quick else 4, H=8 if quick else 10, needs=["c19:pickup", "c19:dropoff"])
     fsx(c, ("hivemc.w_log", "make_req", {"requests": ["p0", "p1", "r2"], "name": "W-req/pooling/log", "prestart": ("p0", "p1")}), ("hivemc.bundles", "c19", {}), K=2 if quick else 3, H=8 if quick else 10, needs=["c19:pickup"])
+    # a run that starts two minutes before midnight: requests issued before it are picked up and dropped off after it
+    fsx(c, ("hivemc.w_log", "make_req", {"midnight": True, "name": "W-req/midnight/log"}), ("hivemc.bundles", "c19", {}), K=3, H=6 if quick else 9, needs=["c19:pickup", "c19:dropoff"])
     auto_worlds(c, "c19", quick, make=("hivemc.w_log", "make_auto"), extra={"prices": True}, needs=["c19:pickup", "c19:dropoff", "c19:charge"])
     # end-to-end cross-check: scenarios loaded by load_scenario (handlers installed by the library), run linearly, whole-run sums
     from .enumrun import pmap
